@@ -43,10 +43,11 @@ PICKED = [
     # _filter_pairs:  match &= <expr>      (idx = one row [start, stop, step] of `indices`, elem = one coordinate)
     dict(name="s_filter_match", file=CI, func="_filter_pairs", pick=("augassign_value", "match"),
          params=["idx_0", "idx_1", "idx_2", "elem"], subscripts={"idx": ["idx_0", "idx_1", "idx_2"]}),
-    # getitem, slice branch:  coords.append((x.coords[i, mask] - ind.start) // ind.step)
+    # getitem, slice branch:  coords.append((x.coords[i, mask].astype(np.intp) - ind.start) // ind.step)
+    # (one coordinate c of the selected column; the cast to intp is the identity on unbounded Z)
     dict(name="s_coord_map", file=CI, func="getitem",
          pick=("call_arg", "isinstance(ind, slice)", "coords.append"),
-         params=["c", "ind"], extern={"x.coords[i, mask]": "Ok c"}),
+         params=["c", "ind"], extern={"x.coords[i, mask].astype(np.intp)": "Ok c"}),
     # getitem, slice branch:  shape.append(len(range(ind.start, ind.stop, ind.step)))
     dict(name="s_slice_len", file=CI, func="getitem",
          pick=("call_arg", "isinstance(ind, slice)", "shape.append"),
